@@ -70,6 +70,16 @@ def run(ctx):
         return c, tlc_must_pass(ctx, "proto/Repartition", cfg=cfg, workers=3 if quick else 4, coverage=True, tag=f"mc{i}", timeout=3000)
 
     f_mc = [pool.submit(mc, x) for x in enumerate(exh)]
+
+    # the spill-pool x gate interplay (known finding): the model of the code as it is deadlocks, the model of
+    # the proposed repair is deadlock free and delivers everything
+    def gate(fixed):
+        cfg = ctx.path(f"gate-{fixed}.cfg")
+        open(cfg, "w").write(f"CONSTANTS W = 2 NB = {2 if quick else 3} FIXED = {tla_bool(fixed)}\nSPECIFICATION Spec\nINVARIANTS Delivered NeverTooMany\n"
+                             "PROPERTIES Termination\nCHECK_DEADLOCK TRUE\n")
+        return tlc(ctx, "proto/RepartSpillGate", cfg=cfg, workers=2, tag=f"gate-{fixed}", timeout=1800)
+
+    f_gate = [pool.submit(gate, False), pool.submit(gate, True)]
     # ---- 2. partitioner cases -----------------------------------------------------------------------
     r = f_cases.result()
     cases = []
@@ -81,8 +91,8 @@ def run(ctx):
     case_states = r.distinct
     write_ndjson(ctx.path("part_cases.ndjson"), cases)
     # ---- 3. the real operator -----------------------------------------------------------------------
-    nrandom = 120 if quick else 4000
-    summary, _ = run_harness(ctx, "vproto", ["c10", "--part-cases", ctx.path("part_cases.ndjson"), "--random", nrandom, "--jobs", 4, "--forced", 6 if quick else 40, "--forced-stop",
+    nrandom = 120 if quick else 2000
+    summary, _ = run_harness(ctx, "vproto", ["c10", "--part-cases", ctx.path("part_cases.ndjson"), "--random", nrandom, "--jobs", 4, "--forced", 6 if quick else 12, "--forced-stop",
                                               "--out", ctx.path("res.json"), "--traces", ctx.path("traces.ndjson")], timeout=6000)
     res = json.load(open(ctx.path("res.json")))
     for v in res["violations"]:
@@ -104,6 +114,14 @@ def run(ctx):
     never = [a for a in MC_ACTIONS if taken.get(a, 0) == 0]
     if never:
         raise ToolError(f"vacuity: specification actions never taken: {never}")
+    g_pinned, g_fixed = [f.result() for f in f_gate]
+    if not g_fixed.ok or g_fixed.deadlock or g_fixed.invariant_violated or g_fixed.temporal_violated:
+        sys.stderr.write(g_fixed.out[-3000:])
+        raise ToolError("RepartSpillGate with FIXED=TRUE must be deadlock free (specification-level)")
+    if not g_pinned.deadlock:
+        raise ToolError("RepartSpillGate with FIXED=FALSE no longer exhibits the modelled deadlock (specification-level)")
+    states += g_pinned.distinct + g_fixed.distinct
+    transitions += g_pinned.generated + g_fixed.generated
     # ---- 4. B2: TLC validates the recorded executions ----------------------------------------------
     traces = read_ndjson(ctx.path("traces.ndjson"))
     recorded = len(traces)
@@ -149,6 +167,7 @@ def run(ctx):
         "rows_delivered": res["rows_delivered"],
         "traces_recorded": recorded, "trace_states": tstates,
         "key_domain_hash_limbs": limbs,
+        "spill_gate_model": {"pinned_code_deadlocks_in_model": True, "pinned_states": g_pinned.distinct, "repaired_model_states": g_fixed.distinct, "repaired_model_ok": True},
         "rule": "a case is (a) a TLC-enumerated partitioner case with the specification's partition per row, or (b) one execution of RepartitionExec on a seeded scripted input/configuration; distinct = distinct configuration tuples",
     }, assumptions=[
         "hash placement: the 64-bit hash of a row is measured with the public create_hashes and REPARTITION_RANDOM_STATE (trusted); the specification decides hash % n, the range rule and the round-robin rule",
